@@ -447,43 +447,42 @@ theorem cleaner_paths_to_refs (pre post : Str) (segs : List Str)
 /-- `\n` separates paths; the characters the rewriting introduces are not line boundaries (table facts) -/
 theorem nl_delim : isDelim '\n' = true := by decide +kernel
 
-/-- the line does not end inside a path: it ends with a delimiter character followed by segment characters only
-(a word, or nothing), and its very last character is not blank -/
-def EndsClean (l : Str) : Prop :=
-  ∃ y d r e, l = y ++ d :: r ∧ isDelim d = true ∧ (∀ c ∈ r, isSeg c = true) ∧
-    (d :: r).getLast? = some e ∧ pyIsSpace e = false
-
 /-- **cleaner_end_to_end** — `ErrorCleaner.odk_validate` works line by line.  For every diagnostic given as lines
-(joined by `\n`; no line contains a line boundary; the first line starts with a non-blank character other than `/`;
-the last line `EndsClean`; not the launcher's jarfile message): the final message is the `\n`-join of the lines,
-each rewritten by the path substitution *on its own*, neighbouring duplicates dropped, stack lines dropped and
-exception names deleted.  Together with `cleaner_paths_to_refs` (applied to any line) and `cleaner_no_java_noise`
-this is the statement about the final message: `strip`, `splitlines` and `join` neither merge, split nor lose lines. -/
+(joined by `\n`; no line contains a line boundary; the text starts and ends with a non-blank character, i.e. it is
+already stripped; not the launcher's jarfile message): the final message is the `\n`-join of the lines, each
+rewritten by the path substitution *on its own*, neighbouring duplicates dropped, stack lines dropped and exception
+names deleted.  Together with `cleaner_paths_to_refs` (applied to any line) and `cleaner_no_java_noise` this is the
+statement about the final message: `strip`, `splitlines` and `join` neither merge, split nor lose lines. -/
 theorem cleaner_end_to_end (ls : List Str) (hne : ls ≠ [])
     (hlb : ∀ l ∈ ls, ∀ c ∈ l, isLineBreak c = false)
-    (hhead : ∃ c r rest, ls = (c :: r) :: rest ∧ pyIsSpace c = false ∧ c ≠ '/')
-    (hlast : EndsClean (ls.getLast hne))
+    (hhead : ∃ c r rest, ls = (c :: r) :: rest ∧ pyIsSpace c = false)
+    (hlast : ∃ x e, ls.getLast hne = x ++ [e] ∧ pyIsSpace e = false)
     (hjar : isInfix jarfilePhrase (joinWith ['\n'] ls) = false) :
     odkValidate (joinWith ['\n'] ls) = joinWith ['\n'] ((dedupAdj (ls.map subPaths)).filterMap removeJava) := by
   have hsub : subPaths (joinWith ['\n'] ls) = joinWith ['\n'] (ls.map subPaths) := subPaths_join '\n' nl_delim ls
   have hms_ne : ls.map subPaths ≠ [] := by simpa using hne
-  -- the last rewritten line
-  obtain ⟨y, d, r, e, hl, hd, hr, hge, he⟩ := hlast
-  obtain ⟨z, hz⟩ : ∃ z, d :: r = z ++ [e] := by
-    rw [List.getLast?_eq_some_iff] at hge
-    exact hge
-  have hlastm : (ls.map subPaths).getLast hms_ne = (subPaths y ++ z) ++ [e] := by
-    rw [List.getLast_map, hl, subPaths_split y r d hd, subPaths_allSeg r hr, hz]
-    simp [List.append_assoc]
+  -- the last rewritten line ends with the last character of the text or with `}`
+  obtain ⟨x, e, hl, he⟩ := hlast
+  obtain ⟨z, e', hz, he'⟩ := subPaths_last x e slash_not_seg
+  have hsp' : pyIsSpace e' = false := by
+    rcases he' with rfl | rfl
+    · exact he
+    · decide
+  have hlastm : (ls.map subPaths).getLast hms_ne = z ++ [e'] := by
+    rw [List.getLast_map, hl, hz]
   obtain ⟨pre, hpre⟩ := joinWith_last ['\n'] (ls.map subPaths) hms_ne
-  -- the first rewritten line
-  obtain ⟨c, r0, rest, hls, hc, hc2⟩ := hhead
-  obtain ⟨r1, hr1⟩ := subPaths_head c r0 hc2
-  obtain ⟨r2, hr2⟩ := joinWith_head ['\n'] c r1 (rest.map subPaths)
-  have hhd : joinWith ['\n'] (ls.map subPaths) = c :: r2 := by
+  -- the first rewritten line starts with the first character of the text or with `$`
+  obtain ⟨c, r0, rest, hls, hc⟩ := hhead
+  obtain ⟨d, r1, hr1, hd⟩ := subPaths_first c r0
+  have hsd : pyIsSpace d = false := by
+    rcases hd with rfl | rfl
+    · exact hc
+    · decide
+  obtain ⟨r2, hr2⟩ := joinWith_head ['\n'] d r1 (rest.map subPaths)
+  have hhd : joinWith ['\n'] (ls.map subPaths) = d :: r2 := by
     rw [hls, List.map_cons, hr1, hr2]
   have hstrip : strip (joinWith ['\n'] (ls.map subPaths)) = joinWith ['\n'] (ls.map subPaths) :=
-    strip_id _ c e r2 (pre ++ (subPaths y ++ z)) hhd (by rw [hpre, hlastm]; simp [List.append_assoc]) hc he
+    strip_id _ d e' r2 (pre ++ z) hhd (by rw [hpre, hlastm]; simp [List.append_assoc]) hsd hsp'
   have hnb : ∀ m ∈ ls.map subPaths, ∀ x ∈ m, isLineBreak x = false := by
     intro m hm x hx
     simp only [List.mem_map] at hm
@@ -507,14 +506,14 @@ theorem cleaner_end_to_end_path (pre post : Str) (segs : List Str) (more : List 
     (hsegs : ∀ s ∈ segs, s ≠ [] ∧ ∀ c ∈ s, isSeg c = true) (hlen : 2 ≤ segs.length)
     (hkeep : keepMatch (chainText segs) = false)
     (hlb : ∀ l ∈ (pre ++ chainText segs ++ post) :: more, ∀ c ∈ l, isLineBreak c = false)
-    (hhead : ∃ c r, pre ++ chainText segs ++ post = c :: r ∧ pyIsSpace c = false ∧ c ≠ '/')
-    (hlast : EndsClean (((pre ++ chainText segs ++ post) :: more).getLast hne))
+    (hhead : ∃ c r, pre ++ chainText segs ++ post = c :: r ∧ pyIsSpace c = false)
+    (hlast : ∃ x e, ((pre ++ chainText segs ++ post) :: more).getLast hne = x ++ [e] ∧ pyIsSpace e = false)
     (hjar : isInfix jarfilePhrase (joinWith ['\n'] ((pre ++ chainText segs ++ post) :: more)) = false) :
     odkValidate (joinWith ['\n'] ((pre ++ chainText segs ++ post) :: more)) =
       joinWith ['\n'] ((dedupAdj ((subPaths pre ++ ('$' :: '{' :: (segs.getLastD []) ++ ['}']) ++ subPaths post)
         :: more.map subPaths)).filterMap removeJava) := by
-  obtain ⟨c, r, h1, h2, h3⟩ := hhead
-  have h := cleaner_end_to_end _ hne hlb ⟨c, r, more, by rw [h1], h2, h3⟩ hlast hjar
+  obtain ⟨c, r, h1, h2⟩ := hhead
+  have h := cleaner_end_to_end _ hne hlb ⟨c, r, more, by rw [h1], h2⟩ hlast hjar
   obtain ⟨hsp, hrep, _⟩ := cleaner_paths_to_refs pre post segs hpre hpost hsegs hlen
   rw [h, List.map_cons, hsp, hrep hkeep]
 
@@ -640,11 +639,11 @@ example : (mainCli {} "in".toList "form.md".toList (some ("out".toList, "form.xm
 example : odkValidate "x /data/g/q1 y\nx /data/g/q1 y\n\tat a.B(B.java:1)\n/html/body/input".toList
     = "x ${q1} y\n/html/body/input".toList := by decide +kernel
 example : cleanupErrors "a\na\nb\na".toList = ["a".toList, "b".toList, "a".toList] := by decide +kernel
-/-- `EndsClean` and the end-to-end statement on concrete data (a word at the end; a full stop at the end) -/
-example : EndsClean "Result: Invalid".toList := ⟨"Result:".toList, ' ', "Invalid".toList, 'd', rfl, by decide +kernel, by decide +kernel, rfl, by decide⟩
-example : EndsClean "broke.".toList := ⟨"broke".toList, '.', [], '.', rfl, by decide +kernel, by simp, rfl, by decide⟩
+/-- the end-to-end statement on concrete data: a text that starts with a path and ends inside one -/
 example : odkValidate (joinWith ['\n'] ["Error in [/data/g/first-name] now".toList, "\tat a.B(B.java:1)".toList, "Result: Invalid".toList])
     = "Error in [${first-name}] now\nResult: Invalid".toList := by decide +kernel
+example : odkValidate (joinWith ['\n'] ["/data/g/q1 depends on".toList, "/data/g/q2".toList])
+    = "${q1} depends on\n${q2}".toList := by decide +kernel
 /-- the hypotheses of `cleaner_paths_to_refs` on concrete data -/
 example : subPaths ("see [".toList ++ chainText ["data".toList, "g".toList, "q1".toList] ++ "] now".toList)
     = "see [${q1}] now".toList := by decide +kernel
